@@ -802,7 +802,7 @@ func (x *extras) joiners() {
 	}
 	for e := uint32(2); e <= src.epoch(); e++ {
 		want := src.epochBlocks(e)
-		for variant := 0; variant < 3; variant++ {
+		for variant := 0; variant < 4; variant++ {
 			j := cl.newShadow(fmt.Sprintf("joiner(epoch %d, variant %d)", e, variant), newDBs(), true)
 			if variant == 1 {
 				// reset in the middle of some other epoch: first process a part of epoch 1
@@ -822,6 +822,56 @@ func (x *extras) joiners() {
 			c.Count("joiner_resets", 1)
 			if j.inst.store.GetLastDecidedFrame() != 0 || uint32(j.inst.store.GetEpoch()) != e {
 				c.Violation("joiner", "joiner/state", "%s: after Reset epoch=%d decided=%d", j.name, j.inst.store.GetEpoch(), j.inst.store.GetLastDecidedFrame())
+			}
+			if variant == 3 {
+				// the instance was first reset to this epoch with ANOTHER validator set (the previous epoch's weights for the
+				// same members), worked on a part of the epoch's events under it (rejections are expected there), and is
+				// then reset to the epoch with the right set: nothing evaluated under the wrong weights may survive
+				prev, cur := cl.epochRef(e-1), cl.epochRef(e)
+				same := len(prev.ids) == len(cur.ids) && prev.PV.String() != cur.PV.String()
+				for i := range prev.ids {
+					if same && prev.ids[i] != cur.ids[i] {
+						same = false
+					}
+				}
+				if !same || len(src.order[e]) < 2 {
+					continue
+				}
+				ok := func() (ok bool) {
+					defer func() {
+						if r := recover(); r != nil {
+							if _, is := r.(critPanic); !is {
+								panic(r)
+							}
+							ok = false // a critical error under the wrong weights is not the library's fault
+						}
+					}()
+					if err := j.inst.lch.Reset(idx.Epoch(e), prev.PV); err != nil {
+						return false
+					}
+					o := src.order[e]
+					for _, g := range o[:len(o)/2] {
+						if uint32(j.inst.store.GetEpoch()) != e {
+							return false
+						}
+						pe := cl.pool[g]
+						j.events[pe.Ev.ID()] = pe
+						if err := j.inst.lch.Process(pe.Ev); err != nil {
+							delete(j.events, pe.Ev.ID())
+						}
+					}
+					return uint32(j.inst.store.GetEpoch()) == e
+				}()
+				if !ok {
+					continue
+				}
+				j.blocks = nil
+				j.events = map[hash.Event]*PEvent{}
+				j.guard("Reset", func() { err = j.inst.lch.Reset(idx.Epoch(e), cl.epochRef(e).PV) })
+				if err != nil {
+					c.Violation("joiner", "joiner/reset-error", "%s: Reset to the right validator set returned %v", j.name, err)
+				}
+				c.Probe("reset_to_the_current_epoch_after_a_wrong_validator_set")
 			}
 			if variant == 2 && len(src.order[e]) >= 2 {
 				// reset to the epoch the instance is already in (its epoch database exists under that number and holds
